@@ -92,6 +92,31 @@ def register(op):
             return list(r)
         return guarded(seq, sst, f)
 
+    def _tup(pt):
+        return [[None if e is None else tuple(e) for e in row] for row in pt]
+
+    @op("rotate_complex_pt_turns")
+    def _(a):
+        from dsdobjects import complex_utils as cu
+        st, pt, turns = a
+        st, pt = [list(s) for s in st], _tup(pt)
+        before = copy.deepcopy((st, pt))
+        r = list(cu.rotate_complex_pt(st, pt, turns=turns))
+        if before != (st, pt):
+            raise Modified()
+        return r
+
+    @op("rotate_complex_db_turns")
+    def _(a):
+        from dsdobjects import complex_utils as cu
+        seq, sst, turns = a
+        seq, sst = list(seq), list(sst)
+        before = copy.deepcopy((seq, sst))
+        r = list(cu.rotate_complex_db(seq, sst, turns=turns))
+        if before != (seq, sst):
+            raise Modified()
+        return r
+
     @op("obj_size")
     def _(a):
         seq, sst = a
